@@ -156,6 +156,10 @@ impl Scenario for TxSim {
                             if let Some(v) = mon::check_c11_first_raw(&res, &buf, &[], ptype, buf_len) {
                                 report!(v);
                             }
+                        } else if let Some(pp) = parsed.as_ref() {
+                            if let Some(v) = mon::check_c11_first(&res, pp, fid, buf_len, false, &pdu, &buf) {
+                                report!(v);
+                            }
                         }
                         if let Some(v) = v6 {
                             report!(v);
@@ -171,7 +175,14 @@ impl Scenario for TxSim {
                         };
                         let res = tx_encap_ext(&mut enc, &pdu, fid, ptype, &lab, &mut buf, ex);
                         let em = Emitted { call: Call::EncapExt, pdu: &pdu, ptype, label: lab, fid, exts: &exts, ctx: None, before: &before, after: &buf, res: &res };
-                        let (v6, _) = mon::check_c06(&em);
+                        let (v6, parsed_x) = mon::check_c06(&em);
+                        if v6.is_none() {
+                            if let Some(pp) = parsed_x.as_ref() {
+                                if let Some(v) = mon::check_c11_first(&res, pp, fid, buf_len, true, &pdu, &buf) {
+                                    report!(v);
+                                }
+                            }
+                        }
                         if let Some(v) = v6 {
                             let (s, d) = (v.site.clone(), v.detail.clone());
                             if target == "C13" {
